@@ -64,9 +64,9 @@ def module_closure(roots):
     return sorted(seen)
 
 
-EXTRA_PROPS = {"C04": ["C04Par", "C04Seq"], "C09": ["C09Hist"], "C16": ["C16Indep", "C16Seq"], "C02": ["C02Cmd"], "C05": ["C05Copy", "C05Cmd", "C05Seq"], "C03": ["C03Cmd"], "C14": ["C14Loop"], "C15": ["C05Copy", "C15Loop"],
+EXTRA_PROPS = {"C04": ["C04Par", "C04Seq"], "C09": ["C09Hist"], "C16": ["C16Indep", "C16Seq"], "C02": ["C02Cmd"], "C05": ["C05Copy", "C05Cmd", "C05Seq"], "C03": ["C03Cmd"], "C14": ["C14Loop"], "C15": ["C05Copy", "C15Loop", "C15Seq"],
                "C10": ["C10Loop", "C10Cmd"], "C12": ["C10Loop", "C12Cmd"], "C08": ["C08Cmd"], "C11": ["C08Cmd", "C11Cmd"], "C13": ["C13Cmd", "C13Order"], "C06": ["C13Cmd"], "C07": ["C07Cmd"], "C01": ["C07Cmd", "C01Seq"],
-               "C17": ["C17Single"], "C18": ["C18Cmd"], "C19": ["C19Cmd"], "C20": ["C19Cmd", "C20Cmd"]}
+               "C17": ["C17Single", "C17Seq"], "C18": ["C18Cmd"], "C19": ["C19Cmd"], "C20": ["C19Cmd", "C20Cmd"]}
 
 
 def audit(pid):
